@@ -71,12 +71,13 @@ class build_hank_havoc(_Havoc):
 
     def spec(self, c, Y, Yref, br, method, calc_unc=False, nb=100):
         H = S.array("H", "float", ndim=2, finite=True)
-        c.memo["ghost:build_hank"] = {"Y": Y, "Yref": Yref, "br": br, "method": method, "calc_unc": calc_unc, "nb": nb}
+        g = c.memo["ghost:build_hank"] = {"Y": Y, "Yref": Yref, "br": br, "method": method, "calc_unc": calc_unc, "nb": nb}
         if isinstance(calc_unc, bool):
             cu = calc_unc
         else:
             cu = c.branch(calc_unc)
-        return (H, S.array("T", "float", ndim=2, finite=True) if cu else None)
+        g["H_out"], g["T_out"] = H, (S.array("T", "float", ndim=2, finite=True) if cu else None)
+        return (g["H_out"], g["T_out"])
 
 
 @register
@@ -107,7 +108,8 @@ class SSI_poles_havoc(_Havoc):
 
     def spec(self, c, Obs, AA, CC, ordmax, dt, step=1, calc_unc=False, Q1=None, Q2=None, Q3=None, Q4=None):
         cu = calc_unc if isinstance(calc_unc, bool) else c.branch(calc_unc)
-        c.memo["ghost:SSI_poles"] = {"ordmax": ordmax, "dt": dt, "step": step, "calc_unc": calc_unc}
+        c.memo["ghost:SSI_poles"] = {"ordmax": ordmax, "dt": dt, "step": step, "calc_unc": calc_unc, "Obs": Obs, "AA": AA, "CC": CC,
+                                     "Q": (Q1, Q2, Q3, Q4)}
         # table shape (ordmax, int(ordmax/step) + 1): established by the C01 contract of SSI_poles
         n1 = sym.add(ordmax, 1) if (sym.is_pyint(step) and step == 1) else None
         return pole_tables(c, cu, n0=ordmax, n1=n1)
@@ -149,7 +151,7 @@ class pLSCF_poles_havoc(_Havoc):
     name = "havoc"
 
     def spec(self, c, Ad, Bn, dt, methodSy, nxseg):
-        c.memo["ghost:pLSCF_poles"] = {"dt": dt, "methodSy": methodSy, "nxseg": nxseg}
+        c.memo["ghost:pLSCF_poles"] = {"dt": dt, "methodSy": methodSy, "nxseg": nxseg, "Ad": Ad, "Bn": Bn}
         # one column per model order 1..ordmax (len(Ad) = ordmax): established by the C05 contracts
         om = c.memo.get("ghost:pLSCF", {}).get("ordmax")
         Fn, Xi, Phi, Lam, _, _, _ = pole_tables(c, False, n1=om)
